@@ -151,11 +151,31 @@ impl Prop for C02 {
   }
 
   fn run(&self, case: &Case, _flavour: &str) -> Outcome {
-    let src = case.input["src"].as_str().unwrap();
-    let paren = case.input["paren"].as_str().unwrap();
+    let mut src = case.input["src"].as_str().unwrap().to_string();
+    let mut paren = case.input["paren"].as_str().unwrap().to_string();
     let p = pool();
     let mut s = Sess::new();
     for (n, v) in p.iter() { s.bind(n, v, false); }
+    // operand forms: in half of the cases (hash of the case id) the operands are written as inline literals instead of
+    // variables, in the formula and in its parenthesised twin alike (the stepwise evaluation keeps variables)
+    let h = case.id.bytes().fold(0xcbf29ce484222325u64, |h, b| (h ^ b as u64).wrapping_mul(0x100000001b3));
+    let mut form = "variables";
+    if (h >> 11) & 1 == 1 {
+      fn replace_word(text: &str, name: &str, repl: &str) -> String {
+        let chars: Vec<char> = text.chars().collect(); let n: Vec<char> = name.chars().collect(); let mut out = String::new(); let mut i = 0;
+        while i < chars.len() {
+          let word = |c: char| c.is_alphanumeric() || c == '_';
+          if chars[i..].starts_with(&n[..]) && (i == 0 || !word(chars[i - 1])) && (i + n.len() == chars.len() || !word(chars[i + n.len()])) { out.push_str(repl); i += n.len(); } else { out.push(chars[i]); i += 1; }
+        }
+        out
+      }
+      for (n, v) in p.iter() {
+        let Some(l) = lit(v) else { continue };
+        if l.starts_with('-') { continue; }
+        if let Ev::Ok(pv) = s.eval(&l) { if &pv == v { src = replace_word(&src, n, &l); paren = replace_word(&paren, n, &l); form = "literals"; } }
+      }
+    }
+    let (src, paren) = (src.as_str(), paren.as_str());
     let r1 = s.eval(src);
     let r2 = s.eval(paren);
     if let Ev::Panic(m) = &r1 { return Outcome::violated("panic-escaped", format!("{}: {}", src, m)); }
@@ -168,7 +188,7 @@ impl Prop for C02 {
     let same = |x: &Ev, y: &Ev| match (x, y) { (Ev::Ok(a), Ev::Ok(b)) => a == b, (Ev::Ok(_), _) | (_, Ev::Ok(_)) => false, _ => true };
     if !same(&r1, &r2) { return Outcome::violated("differs-from-parenthesised", format!("`{}` = {} but `{}` = {}", src, r1.show(), paren, r2.show())); }
     if !same(&r1, &r3) { return Outcome::violated("differs-from-stepwise", format!("`{}` = {} but evaluating the reference tree `{}` one node at a time gives {}", src, r1.show(), paren, r3.show())); }
-    if r1.is_ok() { Outcome::held() } else { Outcome::trivial() }
+    if r1.is_ok() { Outcome::held().tag(format!("operands:{}", form)) } else { Outcome::trivial() }
   }
 }
 
